@@ -16,8 +16,8 @@ S0, S1, S2 = 'sym<0>', 'sym<1>', 'sym<2>'
 def sym_cases(quick):
     c = []
 
-    def add(name, cxx, spec=None, inc=None, bytes_=False, heavy=False):
-        c.append({'name': name, 'cxx': cxx, 'spec': spec or cxx, 'inc': inc, 'bytes': bytes_, 'heavy': heavy})
+    def add(name, cxx, spec=None, inc=None, bytes_=False, heavy=False, k2=0):
+        c.append({'name': name, 'cxx': cxx, 'spec': spec or cxx, 'inc': inc, 'bytes': bytes_, 'heavy': heavy, 'k2': k2})
 
     add('if_must2', 'if_must< %s, %s >' % (S0, S1))
     add('if_must3', 'if_must< %s, %s, %s >' % (S0, S1, S2))
@@ -70,6 +70,11 @@ def sym_cases(quick):
         for b in range(a, hi + 1):
             add('rep_min_max%d_%d' % (a, b), 'rep_min_max< %d, %d, %s >' % (a, b, S0))
     add('rep_min_max1_2_2', 'rep_min_max< 1, 2, %s, %s >' % (S0, S1))
+    # rematch / minus: the re-matched rules run on the sub-input that the head matched; sym2<k> may depend on where its input ends
+    add('rematch1', 'rematch< %s >' % S0)
+    add('rematch2', 'rematch< %s, sym2<0> >' % S0, k2=2)
+    add('rematch3', 'rematch< %s, sym2<0>, sym2<1> >' % S0, k2=2)
+    add('minus', 'minus< %s, sym2<0> >' % S0, k2=2)
     add('separated_seq', 'separated_seq< %s, %s, %s, %s >' % (S0, S1, S2, S1), spec='seq< %s, %s, %s, %s, %s >' % (S1, S0, S2, S0, S1), inc='tao/pegtl/contrib/separated_seq.hpp')
     add('separated_seq1', 'separated_seq< %s, %s >' % (S0, S1), spec=S1, inc='tao/pegtl/contrib/separated_seq.hpp')
     add('if_then', 'if_then< %s, %s, %s >' % (S0, S1, S2), spec='if_then_else< %s, seq< %s, %s >, failure >' % (S0, S1, S2), inc='tao/pegtl/contrib/if_then.hpp')
@@ -89,7 +94,7 @@ def plan(ctx):
         n = N
         if c['heavy']:
             n = 2 if ctx.quick() else 4     # star nested in star: cost grows with N^2 unwindings
-        text, low, seen = symgen.harness_text(c, n, K, doc, maxres=3, variants=('ar', 'ao', 'nr', 'no'), bytes_=c['bytes'])
+        text, low, seen = symgen.harness_text(c, n, K, doc, maxres=3, variants=('ar', 'ao', 'nr', 'no'), bytes_=c['bytes'], k2=c['k2'])
         h = ctx.write('h_%s.c' % c['name'], text)
         groups = (('ar', 'ao', 'nr', 'no'),) if (ctx.quick() and not c['heavy']) else (('ar', 'ao'), ('nr', 'no'))
         for grp in groups:
